@@ -2,11 +2,15 @@ import PynetVerif.Model.SExp
 import PynetVerif.Driver.Status
 import PynetVerif.Driver.Fsm
 import PynetVerif.Driver.Framing
+import PynetVerif.Driver.Scu
 open PynetVerif
 
 /-- Each model contributes `String → List SExp → Option SExp` (none = not my op). -/
 def handlers : List (String → List SExp → Option SExp) :=
-  [Driver.statusOps, Driver.fsmOps, Driver.framingOps]
+  [Driver.statusOps,
+   Driver.fsmOps,
+   Driver.framingOps,
+   Driver.scuOps]
 
 def handle (e : SExp) : SExp :=
   match e with
